@@ -63,6 +63,8 @@ func buildClasses() (out []lineClass) {
 		}
 		out = append(out, lineClass{c.name + "@0", c.text, c.kind})
 		out = append(out, lineClass{c.name + "@text", "foo: bar " + c.text, c.kind})
+		// multi-byte text in front of the comment: byte offsets and character columns differ
+		out = append(out, lineClass{c.name + "@utf8text", "summary: \"ąęść żółw\" [ " + c.text, c.kind})
 		if c.kind == "line" || c.kind == "" && c.name == "disable" {
 			out = append(out, lineClass{c.name + "@tabtext", "\tfoo:\tbar\r " + c.text, c.kind})
 		}
@@ -273,10 +275,12 @@ var payloads = []string{
 	"\t- : [ broken",
 	"{% a %}\r{% b %}",
 	"\tfoo:\tbar # pint disable promql/regexp",
+	"summary: \"ąęść żółw\" [ # pint ignore/begin",
+	"żółw: [ { # pint disable promql/regexp",
 }
 
 // payloads usable before a trailing "# pint ignore/line" (no '#')
-var inlinePayloads = []string{"{% set x = 1 %}", "  - : [ broken", "- record: evil", "  expr: up", "\tx:\ty", "{% a %}\r{% b %}"}
+var inlinePayloads = []string{"{% set x = 1 %}", "  - : [ broken", "- record: evil", "  expr: up", "\tx:\ty", "{% a %}\r{% b %}", "summary: \"ąęść żółw\" [", "żółw: [ {"}
 
 type obs struct {
 	Rules   []string
@@ -455,7 +459,7 @@ func e2e(c *explore.Chooser) *explore.Case {
 func main() {
 	explore.Main(&explore.Config{
 		Property: "C10", Level: "model_checking",
-		Rule: "(a) explicit-state BFS to closure over (real ContentReader masking state (skipAll,skipNext,autoReset,inBegin), reference exclusion state) x 32 line classes (every pint comment type incl. invalid/unknown, at offset 0 and after text, plus plain text/comment/empty): every transition checked for non-interference (excluded line fully blanked, same next masking state as any other excluded text, nothing recorded, line structure kept); (b) all files of <=3 blocks (rule | one excluded block in each of 5 forms) x all ordered pairs of 16 payload classes (4 for the inline form): parse+lint of payload A vs payload B, and vs the file without the block shifted by its line count; thorough: <=4 blocks, up to two excluded blocks per file (the second pairs each payload with its successor), the second line of the two-line begin/end form varies too",
+		Rule: "(a) explicit-state BFS to closure over (real ContentReader masking state (skipAll,skipNext,autoReset,inBegin), reference exclusion state) x 48 line classes (every pint comment type incl. invalid/unknown, at offset 0, after ASCII text and after multi-byte UTF-8 text, plus plain text/comment/empty): every transition checked for non-interference (excluded line fully blanked, same next masking state as any other excluded text, nothing recorded, line structure kept); (b) all files of <=3 blocks (rule | one excluded block in each of 5 forms) x all ordered pairs of 18 payload classes (8 for the inline form; incl. non-ASCII text before a pint comment): parse+lint of payload A vs payload B, and vs the file without the block shifted by its line count; thorough: <=4 blocks, up to two excluded blocks per file (the second pairs each payload with its successor), the second line of the two-line begin/end form varies too",
 		Assumptions: []string{
 			"reference exclusion semantics from docs/ignoring.md: ignore/line excludes the text before the comment, ignore/next-line the whole next line, begin/end the lines strictly between, ignore/file everything after",
 			"traces_validated_against_impl: the model IS driven through the real ContentReader (every transition replays the shortest path on a fresh reader), so every explored transition is an implementation trace",
